@@ -228,3 +228,50 @@ static unsigned char utf16_literal_to_utf8(const unsigned char * const in, const
 }
 int bad_TAB17_ignored(const unsigned char *in, const unsigned char *end, unsigned char *o) { utf16_literal_to_utf8(in, end, &o); return 1; }
 int good_tested(const unsigned char *in, const unsigned char *end, unsigned char *o) { unsigned char n = utf16_literal_to_utf8(in, end, &o); if (n == 0) { return 0; } return 1; }
+
+/* OWN9: clearing the constant-key bit while the node still holds a key it does not own */
+cJSON_bool bad_OWN9_fast_path(cJSON *replacement, const char *string)
+{
+    if ((replacement->string == NULL) || (strcmp(replacement->string, string) != 0))
+    {
+        char *k = (char*)cJSON_strdup((const unsigned char*)string, &global_hooks);
+        if (k == NULL) { return 0; }
+        replacement->string = k;
+    }
+    replacement->type &= ~cJSON_StringIsConst;
+    return 1;
+}
+cJSON_bool bad_OWN9_handover(cJSON *replacement, cJSON *replaced)
+{
+    char *k = replaced->string;
+    replaced->string = NULL;
+    replacement->string = k;
+    replacement->type &= ~cJSON_StringIsConst;
+    return 1;
+}
+cJSON_bool good_handover_when_owned(cJSON *replacement, cJSON *replaced, const char *string)
+{
+    char *k = NULL;
+    if (!(replaced->type & cJSON_StringIsConst))
+    {
+        k = replaced->string;
+        replaced->string = NULL;
+    }
+    else
+    {
+        k = (char*)cJSON_strdup((const unsigned char*)string, &global_hooks);
+        if (k == NULL) { return 0; }
+    }
+    replacement->string = k;
+    replacement->type &= ~cJSON_StringIsConst;
+    return 1;
+}
+cJSON_bool good_rekey_by_flag(cJSON *item, const char *name, const cJSON_bool constant_key)
+{
+    char *k = NULL;
+    if (constant_key) { k = (char*)name; }
+    else { k = (char*)cJSON_strdup((const unsigned char*)name, &global_hooks); if (k == NULL) { return 0; } }
+    item->string = k;
+    if (constant_key) { item->type |= cJSON_StringIsConst; } else { item->type &= ~cJSON_StringIsConst; }
+    return 1;
+}
